@@ -49,6 +49,25 @@ CHECKS = {
         note="Union-typed schemas/fields belong to C14; `default` values are not generated (the statement does not say whether an absent optional may come back as its default); defects behind an excluded trigger are masked until that finding is fixed.",
         design="§5 C03",
     ),
+    "C04": dict(
+        category="exploration",
+        technique="Hypothesis-constructed operations + argument assignments (every subset of <=3 optional parameters; values per parameter schema incl. reserved/non-ASCII characters, arrays with repeated/aliased elements; conforming JSON/form/multipart/raw bodies) driven through the generated client over the bundled HttpxTransport; the captured httpx.Request is compared with an independent wire model",
+        text="About 3 500 calls per quick run: exactly one request, method, decoded path, decoded query multimap under ORIGINAL "
+             "names, header and cookie parameters, nothing unsupplied present, body media type and content. Arguments are matched to "
+             "spec parameters by normalised name, and methods to operations by the request they issue, so no generator naming rule "
+             "is trusted. 1 root cause repaired (cookie parameters never sent), 4 open findings excluded by construction.",
+        note="Path values avoid '/', '?', '#', '%' and dot segments; date-time path parameters, `default` values and union-typed bodies are outside the domain (ambiguous statement / C14); null members of JSON bodies may be omitted.",
+        design="§5 C04",
+    ),
+    "C06": dict(
+        category="exploration",
+        technique="generated operations x EVERY status 100..199 and 300..599 (exhaustive axis) x {bundled HttpxTransport over MockTransport, custom transport returning responses unraised}; oracle on the raised exception's class, status_code and response",
+        text="~640 000 calls per quick run: each behaviourally discovered method is called for all 400 non-2xx statuses on both "
+             "transport kinds; it must raise the package's HTTPError carrying that status and response, ClientError for 4xx and "
+             "ServerError for 5xx. Two root causes found and repaired (base HTTPError for 4xx/5xx; `default` with content returning a value).",
+        note="Error bodies are small JSON objects in the sweep (other body shapes: thorough tier); operations come from the C01/C03/C07-clean domain.",
+        design="§5 C06",
+    ),
     "C07": dict(
         category="exploration",
         technique="Hypothesis-constructed operation sets (tag none/one/several/spelling variants, operationId absent/duplicated after sanitisation/suffix-colliding/FastAPI-style/hostile, 3 naming strategies, JSON / YAML / YAML with integer status keys) through generate_client; BEHAVIOURAL oracle: every public method of every tag client reachable from APIClient is called against an in-memory server and attributed to the operation whose request it issues; counts compared with the document",
